@@ -422,7 +422,10 @@ class SpaceTranslator(ParentTranslator):
         else:
             _mx_base = self
             _mx_root = _mx_base.__class__(self)
-            for _mx_s, _mx_b in zip(_mx_root._mx_walk(), _mx_base._mx_walk()):
+            _mx_bs = _mx_base._mx_walk()
+            for _mx_s in _mx_root._mx_walk():
+                # No built-in by name here: a parameter may bear it (zip, next)
+                _mx_b = _mx_bs.__next__()
                 _mx_s._mx_copy_refs(_mx_b, _mx_base)
                 for _mx_r in self._mx_roots:
                     _mx_r._mx_copy_params(_mx_s)
